@@ -324,6 +324,23 @@ pub fn cond_cycle(kind: Kind) -> Program {
     }
 }
 
+/// A cycle that exists only while the head's own flag input is 0; the participant reads nothing
+/// but the head (C22: a panic in the head leaves the participant with a provisional memo that
+/// must not be reused once the cycle is gone).
+pub fn head_flag_cycle(kind: Kind) -> Program {
+    Program {
+        name: format!("headflagcyc-{kind:?}"),
+        cells: vec![(0, Dur::Low), (1, Dur::Low)],
+        nodes: vec![
+            NodeDef::new(kind, Ex::ifc(0, k(4), Ex::or(call(1), k(1)))),
+            NodeDef::new(kind, Ex::or(call(0), k(2))),
+            NodeDef::new(Kind::Ev, Ex::add(call(0), call(1))),
+        ],
+        ext: vec![0],
+        root0: None,
+    }
+}
+
 /// The 27 monotone node templates over three nodes (C12/C13).
 pub fn cyc_template(t: usize) -> Ex {
     let pairs = [(0u8, 1u8), (0, 2), (1, 2)];
